@@ -2,8 +2,8 @@ package main
 
 import (
 	"fmt"
+	"go/types"
 	"os"
-	"sort"
 
 	"golang.org/x/tools/go/ssa"
 
@@ -15,78 +15,24 @@ func main() {
 	if err != nil {
 		panic(err)
 	}
-	g, _ := p.CallGraph()
-	// adjacency among module funcs
-	adj := map[*ssa.Function][]*ssa.Function{}
 	for _, fn := range p.Funcs {
-		n := g.Nodes[fn]
-		seen := map[*ssa.Function]bool{}
-		if n != nil {
-			for _, e := range n.Out {
-				if p.IsProdFunc(e.Callee.Func) && !seen[e.Callee.Func] {
-					seen[e.Callee.Func] = true
-					adj[fn] = append(adj[fn], e.Callee.Func)
+		core.InstrsOf(fn, func(in ssa.Instruction) {
+			switch x := in.(type) {
+			case *ssa.Range:
+				if _, ok := x.X.Type().Underlying().(*types.Map); ok {
+					fmt.Printf("MAPRANGE %-60s %s  over %s\n", core.FuncName(fn), p.Pos(x.Pos()), core.Canon(x.X))
+				}
+			case *ssa.Go:
+				fmt.Printf("GO       %-60s %s\n", core.FuncName(fn), p.Pos(x.Pos()))
+			case *ssa.Select:
+				fmt.Printf("SELECT   %-60s %s states=%d blocking=%v\n", core.FuncName(fn), p.Pos(x.Pos()), len(x.States), x.Blocking)
+			}
+			if c := core.CallOf(in); c != nil {
+				n := core.CalleeName(c)
+				if n == "(*golang.org/x/sync/errgroup.Group).Go" {
+					fmt.Printf("ERRGROUP %-60s %s\n", core.FuncName(fn), p.Pos(in.Pos()))
 				}
 			}
-		}
-	}
-	// tarjan
-	index := 0
-	idx := map[*ssa.Function]int{}
-	low := map[*ssa.Function]int{}
-	on := map[*ssa.Function]bool{}
-	var stack []*ssa.Function
-	var sccs [][]*ssa.Function
-	var sc func(v *ssa.Function)
-	sc = func(v *ssa.Function) {
-		idx[v] = index
-		low[v] = index
-		index++
-		stack = append(stack, v)
-		on[v] = true
-		for _, w := range adj[v] {
-			if _, ok := idx[w]; !ok {
-				sc(w)
-				if low[w] < low[v] {
-					low[v] = low[w]
-				}
-			} else if on[w] && idx[w] < low[v] {
-				low[v] = idx[w]
-			}
-		}
-		if low[v] == idx[v] {
-			var c []*ssa.Function
-			for {
-				w := stack[len(stack)-1]
-				stack = stack[:len(stack)-1]
-				on[w] = false
-				c = append(c, w)
-				if w == v {
-					break
-				}
-			}
-			self := false
-			for _, w := range adj[v] {
-				if w == v {
-					self = true
-				}
-			}
-			if len(c) > 1 || self {
-				sccs = append(sccs, c)
-			}
-		}
-	}
-	for _, fn := range p.Funcs {
-		if _, ok := idx[fn]; !ok {
-			sc(fn)
-		}
-	}
-	for _, c := range sccs {
-		var names []string
-		for _, f := range c {
-			names = append(names, core.FuncName(f))
-		}
-		sort.Strings(names)
-		fmt.Println(len(c), names)
+		})
 	}
 }
